@@ -135,6 +135,7 @@ sim::Json generate(const std::string& tier, uint64_t seed, uint64_t index) {
   int pattern = (int)rng.below(kNumPatterns);
   sim::Json sc = base(pattern, rng.chance(0.3));
   sc.ref("script").set("solve_iters", (long)rng.range(1, 4));
+  if (rng.chance(0.3)) { static const char* ans[] = {"F", "FT", "TF", "TTF", "FFT"}; sc.ref("script").set("cb_answers", ans[rng.below(5)]); }   // a callback that says "not running"
   const Census& c = census_of(pattern);
   int nsig = 1 + (int)rng.below(3);
   std::map<std::string, int> seen;
